@@ -93,6 +93,65 @@ def replay_tok(m, N, R, partial, retain, with_lens):
     return None
 
 
+def fixed_p_vc(window_type, valid_only, lobe):
+    """P rung: slice_spect_data, policy 'fixed', in_lens omitted, for SYMBOLIC batch size N and frames T and one lobe size per VC.
+    Documented policy: windows of `size` frames (2 lobe + 1 symmetric, else lobe + 1) every lobe + 1 frames; with valid_only those
+    that fit in [0, T], otherwise those whose centre frame (symmetric: middle; causal: last; future: first) is a frame of the
+    sequence, starting at (lobe + 1) // 2 - size // 2 (symmetric), -lobe (causal) or 0 (future). Proved: the number of windows per
+    row is exactly the number the policy prescribes (every listed one qualifies, the next one does not), window i of row n sits at
+    flat position n * TT + i with the prescribed bounds, and is labelled n."""
+    import pydrobert.torch._feats as F
+    from vf.pyvc import symtensor as stn
+
+    N, T, F0, I0 = z3.Ints("N T flat0 i0")
+    X = z3.Function("input", z3.IntSort(), z3.IntSort(), z3.RealSort())
+    name = "slice_spect_data[fixed; symbolic N, T; window=%s, valid_only=%s, lobe=%d; in_lens omitted]" % (window_type, valid_only, lobe)
+    stride = lobe + 1
+    size = 2 * lobe + 1 if window_type == "symmetric" else lobe + 1
+    if valid_only:
+        s0, cond = 0, (lambda s_: s_ + size <= T)
+    elif window_type == "symmetric":
+        s0, cond = (lobe + 1) // 2 - size // 2, (lambda s_: s_ + size // 2 < T)
+    elif window_type == "causal":
+        s0, cond = -lobe, (lambda s_: s_ + size - 1 < T)
+    else:
+        s0, cond = 0, (lambda s_: s_ < T)
+    start_of = lambda i: s0 + i * stride
+
+    def thunk(I):
+        I.stubs.update(stn.stubs())
+        x = stn.ST((N, T), lambda a, b: X(ip.to_z3(a), ip.to_z3(b)), "float")
+        return I.call(F.slice_spect_data, [x, None, None, "fixed", window_type, valid_only, lobe], {})
+
+    def post(p):
+        if not api.returns(p) or not isinstance(p.value, tuple) or len(p.value) != 2:
+            return False
+        slices, sources = p.value
+        if not (hasattr(slices, "elem") and hasattr(sources, "elem")) or len(slices.shape) != 2 or len(sources.shape) != 1:
+            return [("result_tensors", z3.BoolVal(False))]
+        total = ip.to_z3(slices.shape[0])
+        TT = z3.Int("windows_per_row")
+        per_row = z3.And(TT >= 0, total == N * TT)
+        i, n_ = F0 % TT, F0 / TT
+        return [("shapes", z3.And(ip.to_z3(sources.shape[0]) == total, ip.to_z3(slices.shape[1]) == 2)),
+                ("count_is_a_whole_number_of_rows", z3.Exists([TT], per_row)),
+                ("every_listed_window_is_prescribed_and_the_next_is_not", z3.ForAll([TT], z3.Implies(per_row, z3.And(z3.Implies(z3.And(0 <= I0, I0 < TT), cond(start_of(I0))), z3.Not(cond(start_of(TT))))))),
+                ("window_bounds_and_source", z3.ForAll([TT], z3.Implies(z3.And(per_row, TT >= 1, 0 <= F0, F0 < total),
+                                                                       z3.And(ip.to_z3(slices.elem(F0, 0)) == start_of(i), ip.to_z3(slices.elem(F0, 1)) == start_of(i) + size, ip.to_z3(sources.elem(F0)) == n_))))]
+
+    return VC("C10.P.fixed_windows", name, M, "slice_spect_data", thunk, pre=[N >= 1, T >= 1], posts=[("documented_fixed_policy", post)], inputs={"N": N, "T": T}, timeout_ms=60000,
+              assumptions=["arange(start, stop, step) = ceil((stop - start) / step) elements start + i * step; stack / expand / flatten (row-major, two symbolic dimensions) as index functions (vf/pyvc/symtensor.py)",
+                           "in_lens omitted (every row has T frames): with in_lens the kept windows are a data-dependent selection - bounded driver; the lobe size is enumerated (0..3), N and T are symbolic; T = 0 (empty result) is the bounded driver's"])
+
+
+def p_vcs(ctx):
+    out = []
+    for lobe in ((0, 1, 2) if ctx.quick else (0, 1, 2, 3, 5)):
+        for wt, vo in (("symmetric", True), ("symmetric", False), ("causal", True), ("causal", False), ("future", False)):
+            out.append(fixed_p_vc(wt, vo, lobe))
+    return out
+
+
 def vcs(ctx):
     out = []
     shapes = [(1, 2), (2, 1)] if ctx.quick else [(1, 1), (1, 2), (1, 3), (2, 2)]
